@@ -2,6 +2,7 @@ import DadiVerif.Lemmas.PopOpsScramble
 import DadiVerif.Lemmas.PopOpsFold
 import DadiVerif.Lemmas.PopOpsProj
 import DadiVerif.Lemmas.PopOpsFoldPath
+import DadiVerif.Lemmas.PopOpsOffCorner
 import DadiVerif.Lemmas.PopOpsScrFold
 import DadiVerif.Lemmas.PopOpsSplit
 /-!
@@ -451,6 +452,17 @@ theorem C10_project_weights (n m h : ℕ) (hm : m ≤ n) (hh : h ≤ n) :
 
 example : (2 : ℕ) ≤ 5 ∧ (3 : ℕ) ≤ 5 := by decide
 
+/-- T tie of the window: the bounds GENERATED from `least, most = max(n - (proj_from - hits), 0), min(hits,n)` (integer arithmetic of the
+    source, then a count) are, for a source count inside the axis, `m − (n − h) ≤ j ≤ min h m` — the window every mask statement
+    about projection uses; the remaining statements of `_project_one_axis` and of `project` are the expected ones (the translator
+    refuses anything else). -/
+theorem C10_project_window (n m h j : ℕ) (hh : h ≤ n) :
+    inWin n m h j = decide (m - (n - h) ≤ j ∧ j ≤ min h m) ∧
+    Gen.projOneAxisStructure = true ∧ Gen.projectStructure = true :=
+  ⟨inWin_eq n m h j hh, rfl, rfl⟩
+
+example : (3 : ℕ) ≤ 5 ∧ inWin 5 2 3 1 = true ∧ inWin 5 2 3 0 = true ∧ inWin 5 2 5 1 = false := by decide
+
 /-- One-axis projections of different populations commute exactly (all fields), hence the result of the loop of
     `Spectrum.project` does not depend on the order of the axes. -/
 theorem C10_project_axes_commute (k m k2 m2 : Nat) (S : FS) (hne : k ≠ k2) :
@@ -487,6 +499,43 @@ example : let S := ofArrays [2, 3, 2] #[1, 2, 3, 4, 5, 6, 7, 8, 9, 10, 11, 12] (
     S.folded = false ∧ Clean S ∧ ([0, 2] : List Nat).Nodup ∧ (∀ k ∈ ([0, 2] : List Nat), k < S.ndim) ∧ ([0, 2] : List Nat).length < S.ndim
     ∧ dropSet [0, 2] 0 [1, 1, 0] = [1] := by
   refine ⟨rfl, ⟨by decide, by decide +kernel⟩, by decide, by decide, by decide, by decide⟩
+
+/-- …hence also for `filter_pops` (which marginalises the complement of `tokeep`, `C10_filter`): keep some populations before
+    or after projecting, the sizes of the kept ones are what matters. -/
+theorem C10_commute_project_filter (tokeep ms rm : List Nat) (mc : Bool) (S : FS) (hf : S.folded = false) (hc : Clean S)
+    (hrm : toRemove S.ndim tokeep = some rm) (hl : rm.length < S.ndim) (hadm : AdmSizes ms S.shape) :
+    ∃ A B, (project ms S).bind (filterPops tokeep mc) = some A ∧
+      (filterPops tokeep mc S).bind (project (dropSet rm 0 ms)) = some B ∧
+      Obs A B ∧ A.labels = B.labels ∧ A.folded = B.folded := by
+  obtain ⟨hn, hmem⟩ := toRemove_spec S.ndim tokeep rm hrm
+  have hv : ∀ k ∈ rm, k < S.ndim := fun k hk => ((hmem k).1 hk).1
+  obtain ⟨A, B, hA, hB, hobs, hlab, hfold⟩ :=
+    marginalize_project_public rm ms (if Gen.filterForwardsMaskCorners then mc else true) S hf hc hn hv hl hadm
+  refine ⟨A, B, ?_, ?_, hobs, hlab, hfold⟩
+  · rw [project_unfolded ms S hf hadm] at hA ⊢
+    rw [Option.bind_some] at hA ⊢
+    rw [← hA]
+    have hnd : ({ projectCore ms S with folded := false, labels := S.labels } : FS).ndim = S.ndim := projectCore_ndim ms S
+    simp only [filterPops, hnd, hrm]
+  · rw [← hB]
+    simp only [filterPops, hrm]
+
+example : toRemove 3 [2] = some [0, 2] ∧ ([0, 2] : List Nat).length < 3 ∧ dropSet [0, 2] 0 [1, 1, 0] = [1] := by decide
+
+/-- **(1) for the spectra the constructor produces** (`StdMask`: at most the two corners masked) with `mask_corners=True`: everything the
+    masked corners do under summing and projecting stays inside the corners of the result, so
+    `fs.project(ns).marginalize(over)` = `fs.marginalize(over).project(…)` observationally, labels and flag included
+    (reduction to the spectrum with the mask cleared, `C10_commute_project_marginalize_all`). -/
+theorem C10_commute_project_marginalize_std (over ms : List Nat) (S : FS) (hf : S.folded = false) (hstd : StdMask S)
+    (hn : over.Nodup) (hv : ∀ k ∈ over, k < S.ndim) (hl : over.length < S.ndim) (hadm : AdmSizes ms S.shape) :
+    ∃ A B, (project ms S).bind (marginalize over true) = some A ∧
+      (marginalize over true S).bind (project (dropSet over 0 ms)) = some B ∧
+      Obs A B ∧ A.labels = B.labels ∧ A.folded = B.folded :=
+  marginalize_project_public_std over ms S hf hstd hn hv hl hadm
+
+example : let S := maskCorners (ofArrays [2, 3, 2] #[1, 2, 3, 4, 5, 6, 7, 8, 9, 10, 11, 12] (Array.replicate 12 false) false none)
+    S.folded = false ∧ StdMask S ∧ S.msk [0, 0, 0] = true ∧ S.msk [1, 2, 1] = true ∧ S.msk [1, 1, 1] = false := by
+  refine ⟨rfl, ⟨by decide, by decide +kernel⟩, by decide +kernel, by decide +kernel, by decide +kernel⟩
 
 /-- **(2) reorder_pops ∘ project = project ∘ reorder_pops** with the sizes permuted like the populations
     (`[ns[p-1] for p in neworder]`), for ANY mask: shape, mask, data at unmasked entries. -/
